@@ -38,7 +38,7 @@ def main():
             rec = json.load(f)
         return mod.replay(rec)
     chk = common.Check(pid, a.tier, seed)
-    lean = common.lean_gate(pid, getattr(mod, 'REQUIRED', []))
+    lean = common.lean_gate(pid, getattr(mod, 'REQUIRED', []), a.tier)
     drv = common.Driver() if lean['driver_ok'] else None
     rng = common.rng_for(pid, seed)
     try:
